@@ -459,6 +459,10 @@ def run(ctx):
 
     _c10.compat(ctx)
     _c10.compat_use(ctx)  # (tools/wiring.py) grid-function and operator algebra compare spaces through their compatible representations
+    from .. import sparse as _sp14, gridfun as _gf14
+
+    _sp14.mass_matrices(ctx)  # (tools/wiring.py) strong forms and grid-function algebra go through the mass-matrix helpers and the norm
+    _gf14.l2_norm_rule(ctx)
 
 
 def combinator_shapes(ctx):
